@@ -97,7 +97,14 @@ def check_day(ctx, day, tod):
     eq('month name us %r' % sname, lambda: dt(sname, dialect='us'), D)
     # time bearing spellings
     eq('datetime T', lambda: dt(T), T)
+    # calls that carry a sub-second part (a 7th part / fractional seconds in an ambiguous string) must leave nothing behind for later calls
+    for perturb in (lambda: dt(y, m, d, h, mi, s, 250000), lambda: dt('%02d/%02d/%04d %02d:%02d:%02d.25' % (min(d, 12), m, y, h, mi, s))):
+        try:
+            perturb()
+        except Exception:
+            pass
     eq('(y,m,d,h,mi,s)', lambda: dt(y, m, d, h, mi, s), Ts)
+    eq('(y,m,d,h,mi)', lambda: dt(y, m, d, h, mi), Ts.replace(second=0))
     eq('np[s]', lambda: dt(np.datetime64(Ts.isoformat(), 's')), Ts)
     eq('np[us]', lambda: dt(np.datetime64(T.isoformat(), 'us')), T)
     if y < 2262:
